@@ -714,6 +714,141 @@ Definition D := Eval vm_compute in firstn 3 (diffs String.eqb (fun x => [[fst x]
   (fun x => x_sanitizeSynopsis (fun d => d) (x_doc_Func_mk [snd x; fst x])) (fun x => Classify.sanitizeSynopsis (fst x) (snd x)) grid).
 """,
         "args": ["f.Name", "doc.Synopsis(f.Doc)"], "replay": None},
+
+    # ---------------------------------------------------------------- fourth batch
+    "mg.runtime": {
+        "checks": ["C11", "C08"],
+        "file": "mg/runtime.go",
+        "names": "Verbose!?os.Getenv=string>string,Debug,GoCmd,HashFast,IgnoreDefault,EnableColor,CacheDir!?filepath.Join=...string>string!?os.TempDir=>string!runtime_GOOS",
+        "src": ["Verbose", "Debug", "GoCmd", "HashFast", "IgnoreDefault", "EnableColor", "CacheDir"],
+        "model": "Model/Flags.mg_verbose, mg_debug, mg_gocmd, mg_bool (C11; os.Getenv is a parameter = Flags.getenv of the environment; strconv.ParseBool = FlagPkg.parse_bool) and Model/Paths.cache_dir_env (C08; filepath.Join, os.TempDir, runtime.GOOS are parameters)",
+        "requires": "From Mage Require Import Proof.GoLib_models.\nFrom Mage Require Model.Flags Model.Paths.\n",
+        "defs": """Definition CacheDir_spec (pjoin : list string -> string) (getenv : string -> string) (tmp goos : string) : string :=
+  if negb (String.eqb (getenv "MAGEFILE_CACHE") "") then getenv "MAGEFILE_CACHE"
+  else if String.eqb goos "windows" then pjoin [getenv "HOMEDRIVE"; getenv "HOMEPATH"; "magefile"]
+  else if String.eqb (getenv "HOME") "" then pjoin [tmp; ".magefile"] else pjoin [getenv "HOME"; ".magefile"].
+""",
+        "theorems": ["x_Verbose_Flags", "x_Debug_Flags", "x_GoCmd_Flags", "x_HashFast_Flags", "x_IgnoreDefault_Flags", "x_EnableColor_Flags", "x_CacheDir_spec", "x_CacheDir_Paths"],
+        "agree": """Ltac go_parsebool := intros; cbv zeta; rewrite ?ParseBool_FlagPkg; unfold Flags.mg_verbose, Flags.mg_debug, Flags.mg_bool, Flags.VERBOSE, Flags.DEBUG;
+  repeat match goal with |- context [FlagPkg.parse_bool ?s] => destruct (FlagPkg.parse_bool s) end; cbn [is_nil negb]; try reflexivity.
+Theorem x_Verbose_Flags : forall e, x_Verbose (fun k => Flags.getenv k e) = Flags.mg_verbose e.
+Proof. unfold x_Verbose. go_parsebool. Qed.
+Theorem x_Debug_Flags : forall e, x_Debug (fun k => Flags.getenv k e) = Flags.mg_debug e.
+Proof. unfold x_Debug. go_parsebool. Qed.
+Theorem x_GoCmd_Flags : forall e, x_GoCmd (fun k => Flags.getenv k e) = Flags.mg_gocmd e.
+Proof. intros. unfold x_GoCmd, Flags.mg_gocmd, Flags.GOCMD. cbv zeta. go_cases; try reflexivity; congruence. Qed.
+Theorem x_HashFast_Flags : forall e, x_HashFast (fun k => Flags.getenv k e) = Flags.mg_bool "MAGEFILE_HASHFAST" e.
+Proof. unfold x_HashFast. go_parsebool. Qed.
+Theorem x_IgnoreDefault_Flags : forall e, x_IgnoreDefault (fun k => Flags.getenv k e) = Flags.mg_bool "MAGEFILE_IGNOREDEFAULT" e.
+Proof. unfold x_IgnoreDefault. go_parsebool. Qed.
+Theorem x_EnableColor_Flags : forall e, x_EnableColor (fun k => Flags.getenv k e) = Flags.mg_bool "MAGEFILE_ENABLE_COLOR" e.
+Proof. unfold x_EnableColor. go_parsebool. Qed.
+Theorem x_CacheDir_spec : forall pjoin getenv tmp goos, x_CacheDir pjoin getenv tmp goos = CacheDir_spec pjoin getenv tmp goos.
+Proof. intros. unfold x_CacheDir, CacheDir_spec. cbv zeta. go_cases; try reflexivity; congruence. Qed.
+(* not windows, filepath.Join read on parsed paths as Model/Paths.join2: the directory is Paths.cache_dir_env *)
+Theorem x_CacheDir_Paths : forall pjoin getenv goos (l : Paths.layout),
+  goos <> "windows" ->
+  (forall a b, Paths.parse_path (pjoin [a; b]) = Paths.join2 (Paths.parse_path a) (Paths.parse_path b)) ->
+  getenv "MAGEFILE_CACHE" = Paths.l_cache_env l -> getenv "HOME" = Paths.l_home l ->
+  Paths.parse_path (x_CacheDir pjoin getenv (Paths.l_tmp l) goos) = Paths.cache_dir_env l.
+Proof.
+  intros pjoin getenv goos l G J C H. rewrite x_CacheDir_spec. unfold CacheDir_spec, Paths.cache_dir_env.
+  rewrite C, H. apply String.eqb_neq in G. rewrite G. go_cases; rewrite ?J; try reflexivity; congruence.
+Qed.
+""",
+        "search": """Definition names := ["MAGEFILE_VERBOSE"; "MAGEFILE_DEBUG"; "MAGEFILE_GOCMD"; "MAGEFILE_HASHFAST"; "MAGEFILE_IGNOREDEFAULT"; "MAGEFILE_ENABLE_COLOR"].
+Definition grid := pairs names [""; "1"; "true"; "TRUE"; "yes"; "0"; "F"; "2"; "gotip"].
+Definition env_of (x : string * string) : Flags.env := [(fst x, snd x)].
+Definition bdiff (op : string) (f : (string -> string) -> bool) (g : Flags.env -> bool) :=
+  diffs Bool.eqb (fun x => [[op]; [fst x]; [snd x]]) show_bool (fun x => f (fun k => Flags.getenv k (env_of x))) (fun x => g (env_of x)) grid.
+Definition pj (l : list string) : string := String.concat "/" l.
+Definition cgrid := pairs (pairs [""; "/cache"] [""; "/home/u"]) ["linux"; "windows"; "darwin"].
+Definition cenv (x : string * string * string) (k : string) : string :=
+  if String.eqb k "MAGEFILE_CACHE" then fst (fst x) else if String.eqb k "HOME" then snd (fst x)
+  else if String.eqb k "HOMEDRIVE" then "C:" else if String.eqb k "HOMEPATH" then "Users" else "".
+Definition D := Eval vm_compute in firstn 3 (
+  bdiff "Verbose" x_Verbose Flags.mg_verbose ++ bdiff "Debug" x_Debug Flags.mg_debug
+  ++ bdiff "HashFast" x_HashFast (Flags.mg_bool "MAGEFILE_HASHFAST") ++ bdiff "IgnoreDefault" x_IgnoreDefault (Flags.mg_bool "MAGEFILE_IGNOREDEFAULT")
+  ++ bdiff "EnableColor" x_EnableColor (Flags.mg_bool "MAGEFILE_ENABLE_COLOR")
+  ++ diffs String.eqb (fun x => [["GoCmd"]; [fst x]; [snd x]]) show_str (fun x => x_GoCmd (fun k => Flags.getenv k (env_of x))) (fun x => Flags.mg_gocmd (env_of x)) grid
+  ++ diffs String.eqb (fun x => [["CacheDir"]; ["MAGEFILE_CACHE=" ++ fst (fst x); "HOME=" ++ snd (fst x)]%string; [snd x]]) show_str
+       (fun x => x_CacheDir pj (cenv x) "/tmp" (snd x)) (fun x => CacheDir_spec pj (cenv x) "/tmp" (snd x)) cgrid)%list.
+""",
+        "args": ["op", "variable / environment", "value / runtime.GOOS"], "replay": None},
+
+    "signature": {
+        "checks": ["C06"],
+        "file": "parse/parse.go", "names": "hasContextParam,hasVoidReturn,hasErrorReturn", "src": ["hasContextParam", "hasVoidReturn", "hasErrorReturn"],
+        "model": "Model/Classify.hasContextParam, hasErrorReturn, num_fields_r (C06: what a valid target signature is); go/ast as Base/GoLib.ast_expr / ast_field / ast_functype, fmt.Sprint of a type expression is a parameter",
+        "requires": "From Mage Require Import Proof.GoLib_models.\nFrom Mage Require Model.Classify.\n",
+        "defs": "Import Classify.\n",
+        "theorems": ["x_hasContextParam_Classify", "x_hasVoidReturn_Classify", "x_hasErrorReturn_Classify"],
+        "agree": """Theorem x_hasContextParam_Classify : forall ft,
+  agrees (x_hasContextParam ft) (Classify.hasContextParam (map pgroup_of (fieldlist_List (ft_params ft)))).
+Proof.
+  intros [tp [[|f r]|] rs]; cbn [ft_params fieldlist_List map]; try (cbn; reflexivity).
+  unfold x_hasContextParam, Classify.hasContextParam. cbn [ft_params]. cbv zeta.
+  rewrite ?NumFields_params. cbn [map].
+  assert (N : 1 <= num_fields (pgroup_of f :: map pgroup_of r)) by (rewrite num_fields_cons; lia).
+  repeat match goal with |- context [Z.ltb (Z.of_nat (num_fields ?l)) 1] => destruct (Z.ltb_spec (Z.of_nat (num_fields l)) 1); [lia|] end.
+  destruct (Nat.ltb_spec (num_fields (pgroup_of f :: map pgroup_of r)) 1); [lia|].
+  cbn [fieldlist_List]. change (index_ ast_field_zero (f :: r) 0) with f.
+  destruct f as [names ty]. cbn [fld_type fld_names pgroup_of pty_ pnames].
+  destruct ty as [n|x s|tag]; cbn [ast_as_Selector pty_of negb fst snd].
+  - go_cases; cbn; reflexivity.
+  - destruct x as [p|x' s'|tag]; cbn [ast_as_Ident negb pty_of]; try (cbn; reflexivity).
+    unfold len_. destruct (String.eqb_spec p "context"), (String.eqb_spec s "Context"); subst; cbn [negb andb String.eqb];
+      try (go_cases; cbn; try reflexivity; congruence).
+    destruct (Z.ltb_spec 1 (Z.of_nat (length names))), (Nat.ltb_spec 1 (length names)); try lia; cbn; auto. split; [reflexivity|discriminate].
+  - cbn. reflexivity.
+Qed.
+Theorem x_hasVoidReturn_Classify : forall sp ft,
+  x_hasVoidReturn ft = Nat.eqb (num_fields_r (map (rgroup_of sp) (fieldlist_List (ft_results ft)))) 0.
+Proof.
+  intros sp [tp ps [l|]]; unfold x_hasVoidReturn; cbv zeta; cbn [ft_results fieldlist_List map]; [|reflexivity].
+  rewrite ?(NumFields_results sp).
+  destruct (Z.eqb_spec (Z.of_nat (num_fields_r (map (rgroup_of sp) l))) 0), (Nat.eqb_spec (num_fields_r (map (rgroup_of sp) l)) 0); try reflexivity; lia.
+Qed.
+Theorem x_hasErrorReturn_Classify : forall sp ft,
+  agrees (x_hasErrorReturn sp ft) (Classify.hasErrorReturn (map (rgroup_of sp) (fieldlist_List (ft_results ft)))).
+Proof.
+  intros sp [tp ps [[|f r]|]]; cbn [ft_results fieldlist_List map]; try (cbn; reflexivity).
+  unfold x_hasErrorReturn, Classify.hasErrorReturn. cbn [ft_results]. cbv zeta.
+  rewrite ?(NumFields_results sp). cbn [map fieldlist_List]. change (index_ ast_field_zero (f :: r) 0) with f.
+  set (n := num_fields_r (rgroup_of sp f :: map (rgroup_of sp) r)).
+  assert (N : 1 <= n) by (unfold n; rewrite num_fields_r_cons; lia).
+  repeat match goal with |- context [Z.eqb (Z.of_nat n) 0] => destruct (Z.eqb_spec (Z.of_nat n) 0); [lia|] end.
+  destruct (Nat.eqb_spec n 0); [lia|].
+  destruct (Z.ltb_spec 1 (Z.of_nat n)), (Nat.ltb_spec 1 n); try lia; [cbn; split; [reflexivity|discriminate]|].
+  cbn [rgroup_of rnames rkind_]. unfold len_.
+  destruct (Z.ltb_spec 1 (Z.of_nat (length (fld_names f)))), (Nat.ltb_spec 1 (length (fld_names f))); try lia; [cbn; split; [reflexivity|discriminate]|].
+  destruct (String.eqb (sp (fld_type f)) "error"); cbn; [reflexivity|split; [reflexivity|discriminate]].
+Qed.
+""",
+        "search": """Definition sp (e : ast_expr) : string :=
+  match e with AIdent n => n | ASelector (AIdent p) s => ("&{" ++ p ++ " " ++ s ++ "}")%string | ASelector _ s => ("&{0xc000 " ++ s ++ "}")%string | AOther t => t end.
+Definition tys := [AIdent "string"; AIdent "error"; ASelector (AIdent "context") "Context"; ASelector (AIdent "time") "Duration";
+  ASelector (AIdent "ctx") "Context"; ASelector (AIdent "context") "context"; ASelector (AOther "f()") "Context"; AOther "*error"].
+Definition fields := flat_map (fun ty => map (fun ns => {| fld_names := ns; fld_type := ty |}) [[]; ["a"]; ["a"; "b"]]) tys.
+Definition lists := (None :: map (@Some _) (words_upto fields 2))%list.
+Definition show_e (e : ast_expr) : string := sp e.
+Definition show_f (f : ast_field) : string := (String.concat "," (fld_names f) ++ " " ++ show_e (fld_type f))%string.
+Definition show_l (l : ast_fieldlist) : list string := match l with None => ["<nil>"] | Some fs => map show_f fs end.
+Definition show_r (r : bool * option string) : list string := [if fst r then "true" else "false"; if is_nil (snd r) then "nil" else "error"].
+Definition show_m (m : option bool) : list string := match m with Some b => [if b then "true" else "false"; "nil"] | None => ["false"; "error"] end.
+Definition grid := lists.
+Definition D1 := diffs (list_eqb String.eqb) (fun l => [["hasContextParam"]; show_l l]) (fun r => r)
+  (fun l => show_r (x_hasContextParam {| ft_typeparams := None; ft_params := l; ft_results := None |}))
+  (fun l => show_m (Classify.hasContextParam (map pgroup_of (fieldlist_List l)))) lists.
+Definition D2 := diffs (list_eqb String.eqb) (fun l => [["hasErrorReturn"]; show_l l]) (fun r => r)
+  (fun l => show_r (x_hasErrorReturn sp {| ft_typeparams := None; ft_params := Some []; ft_results := l |}))
+  (fun l => show_m (Classify.hasErrorReturn (map (rgroup_of sp) (fieldlist_List l)))) lists.
+Definition D3 := diffs Bool.eqb (fun l => [["hasVoidReturn"]; show_l l]) show_bool
+  (fun l => x_hasVoidReturn {| ft_typeparams := None; ft_params := Some []; ft_results := l |})
+  (fun l => Nat.eqb (num_fields_r (map (rgroup_of sp) (fieldlist_List l))) 0) lists.
+Definition D := Eval vm_compute in firstn 3 (D1 ++ D2 ++ D3)%list.
+""",
+        "args": ["op", "fields (names type)"], "replay": None},
 }
 
 
@@ -754,7 +889,7 @@ def _fn_input(it, translated, args):
             out["%s#%d" % (name, k)] = dict(zip(_fn_fields(translated, name), val))
         elif name in ("i", "j"):
             out[name] = int(val[0])
-        elif name in ("op", "prefix", "name", "goos", "goarch", "s", "goCmd", "runtime.GOOS", "f.Name", "doc.Synopsis(f.Doc)"):
+        elif name in ("op", "prefix", "name", "goos", "goarch", "s", "goCmd", "runtime.GOOS", "f.Name", "doc.Synopsis(f.Doc)", "value / runtime.GOOS"):
             out[name] = val[0]
         else:
             out[name] = val
